@@ -208,8 +208,8 @@ func (in *Interp) Flatten(res *Result) []*Rec {
 			if rec.sub != nil {
 				ch := append(append([]CallStep{}, chain...), CallStep{rec.Site, rec.sub.Fn})
 				cross := !inLayer && rec.sub.Layer
-				// the call itself is a record (T4 MUST-CALL), except inside the layer
-				if !inLayer {
+				// the call itself is a record (T4 MUST-CALL), except below a crossing into the gadget layer
+				if !inLayer || res.Layer {
 					c := *rec
 					c.sub = nil
 					c.Must, c.Loops, c.Chain = m, lp, chain
@@ -619,6 +619,12 @@ func (in *Interp) globalConst(path string) *Val {
 		if c, ok := init.(*ssa.Const); ok && c.Value != nil {
 			out = in.constVal(c)
 		}
+		// trusted table entry: emulated.Goldilocks{}.Modulus() is the Goldilocks prime
+		if call, ok := init.(*ssa.Call); ok {
+			if f := call.Common().StaticCallee(); f != nil && strings.HasSuffix(f.String(), "Goldilocks).Modulus") && strings.Contains(f.String(), "gnark/std/math/emulated") {
+				out = &Val{K: goldilocksP, Sym: goldilocksP.ExactString()}
+			}
+		}
 	}
 	in.globK[g] = out
 	return out
@@ -843,7 +849,7 @@ func wrapSym(op string, parts ...string) string {
 		}
 	}
 	s := op + "(" + strings.Join(parts, ",") + ")"
-	if len(s) > 160 {
+	if len(s) > 480 {
 		return ""
 	}
 	return s
@@ -893,6 +899,14 @@ func (in *Interp) slice(act *activation, x *ssa.Slice) {
 	lo, hi := in.val(act, x.Low), in.val(act, x.High)
 	full := (x.Low == nil || (lo != nil && lo.K != nil && constant.Sign(lo.K) == 0)) && x.High == nil
 	if full {
+		if a.Cell != nil && a.CSel == "" && a.Cell.find().LenVal == nil {
+			if pt, ok := x.X.Type().Underlying().(*types.Pointer); ok {
+				if at, ok := pt.Elem().Underlying().(*types.Array); ok {
+					k := constant.MakeInt64(at.Len())
+					a.Cell.find().LenVal = &Val{K: k, Sym: k.ExactString()}
+				}
+			}
+		}
 		in.set(act, x, a)
 		return
 	}
@@ -912,19 +926,21 @@ func (in *Interp) slice(act *activation, x *ssa.Slice) {
 		}
 	}
 	sel := "[s:" + ls + ":" + hs + "]"
-	for _, p := range a.Dir {
-		if strings.Contains(p, "[s:") {
-			sel = "" // do not stack slice selectors (widening): a slice of a slice stays "some sub-slice"
-		}
-	}
-	for _, p := range a.bnd {
-		if strings.Contains(p, "[s:") {
+	// widening: at most two stacked slice selectors; a deeper sub-slice stays "some sub-slice"
+	for _, p := range append(append([]string{}, a.Dir...), a.bnd...) {
+		if strings.Count(p, "[s:") >= 2 {
 			sel = ""
+		} else if strings.Count(p, "[s:") == 1 && strings.Contains(ls+hs, "[s:") && strings.Count(ls+hs, "[s:") > 1 {
+			sel = "[s:?:?]"
 		}
 	}
 	r := &Val{Mixed: a.Mixed, Deps: a.Deps.Or(in.AllDeps(lo)).Or(in.AllDeps(hi))}
 	if a.Cell != nil {
-		r.Cell, r.CSel = a.Cell, a.CSel // a view of the same cell (elements smashed)
+		r.Cell = a.Cell // a view of the same cell (elements smashed); the selector records that it is a sub-slice
+		r.CSel = a.CSel
+		if !strings.Contains(a.CSel, "[s:") {
+			r.CSel = a.CSel + "[s:" + ls + ":" + hs + "]"
+		}
 	}
 	for _, p := range a.Dir {
 		r.Dir = append(r.Dir, p+sel)
@@ -1048,6 +1064,7 @@ func (in *Interp) binop(act *activation, x *ssa.BinOp) {
 			}
 		}
 		r.Sym = wrapSym(x.Op.String(), symOrLen(a), symOrLen(b))
+		r.Bin = &BinInfo{Op: x.Op, X: a, Y: b}
 		if a.K != nil && b.K != nil && a.K.Kind() == constant.String && x.Op == token.ADD {
 			r.K = constant.BinaryOp(a.K, token.ADD, b.K)
 		}
